@@ -49,6 +49,11 @@ func nestedSpecs(r *Run, detach bool, oracles []string) []Spec {
 			Spec{Name: "nested-fit-map-arr", Kind: "nested", T: 256, Keys: 1, Classes: []string{"t", "fit", "fit+", "A"}, Oracles: oracles, Extra: ex(1, 1, 2, 2, 2)},
 			Spec{Name: "nested-fit-map-map", Kind: "nested", T: 256, Keys: 1, Classes: []string{"t", "fit", "fit+", "M"}, Oracles: oracles, Extra: ex(1, 1, 2, 2, 2)},
 			Spec{Name: "nested-fit-wrapped", Kind: "nested", T: 256, Keys: 1, Classes: []string{"t", "fit", "fit+", "s:A", "s:M"}, Oracles: oracles, Extra: ex(0, 1, 2, 2, 2)},
+			// the parent is a map whose two keys COLLIDE on the first digest level: the children live inside an inline
+			// collision group, which grows when a child grows (a re-Set of an existing key) and must be moved to an
+			// external group once it exceeds the per-element limit
+			Spec{Name: "nested-coll-parent", Kind: "nested", T: 256, Keys: 2, Classes: []string{"h", "A"}, Oracles: oracles, Digests: map[string][4]uint64{"0": {5, 1, 1, 1}, "1": {5, 2, 1, 1}}, Limit: 255,
+				Extra: func() map[string]int { m := ex2(1, 2, 2, 3, 2); m["limit"] = 1; m["nocdrop"] = 1; return m }()},
 			Spec{Name: "nested-two-handles", Kind: "nested", T: 256, Keys: 2, Classes: []string{"t", "A", "M"}, Oracles: oracles, Extra: exTwo(0, 2, 3, 2, 2)},
 			Spec{Name: "nested-two-handles-map", Kind: "nested", T: 256, Keys: 2, Classes: []string{"t", "A", "M"}, Oracles: oracles, Extra: exTwo(1, 2, 3, 2, 2)},
 			Spec{Name: "nested-parent-split", Kind: "nested", T: 256, Keys: 2, Classes: []string{"limA", "s30", "A"}, Oracles: oracles, Extra: ex2(0, 4, 3, 2, 2)},
